@@ -46,7 +46,7 @@ def render_expr(rs, style, empty="1"):
         return empty
     names = [NAMES[r] for r in rs]
     if len(names) == 1:
-        return names[0] if style.pick(4) else "(" + names[0] + ")"
+        return "(" + names[0] + ")" if style.pick(4) == 3 else names[0]
     # Only forms whose TIFA type is insensitive to the operand types (comparison chains, `+`): on the
     # pinned tree some container-typed expressions make the whole analysis fail (tuple + tuple,
     # TypeUnion.clone) - that is C18/C19 matter, kept out of the C09 generator.
@@ -79,8 +79,8 @@ def render(block, style=None, preamble=()):
                 rs = s[1]
                 ln = len(lines) + 1
                 if not rs:
-                    lines.append(ind + ("pass" if style.pick(2) else "print()"))
-                elif style.pick(3) == 0 and len(rs) == 1:
+                    lines.append(ind + ("print()" if style.pick(2) else "pass"))
+                elif style.pick(3) == 2 and len(rs) == 1:
                     lines.append(ind + NAMES[rs[0]])
                 else:
                     lines.append("%sprint(%s)" % (ind, ", ".join(NAMES[r] for r in rs)))
@@ -447,7 +447,59 @@ def gen_case(rng, kinds=("if",), max_size=9, max_depth=4, nvars=None):
     return pre + b
 
 
-def enum_blocks(n, depth_left, nvars, kinds, cond_vars):
+def gen_pattern(rng, kinds=("if",)):
+    """'Assigned inside a compound statement, read afterwards' shapes with noise: the programs on which
+    the three-valued merge (and the loop treatment) decides the diagnosis."""
+    nvars = rng.choice([2, 3, 4])
+    x = rng.randrange(nvars)
+    pre = [["as", v, [], False] for v in range(nvars) if v != x and rng.random() < 0.9]
+    if rng.random() < 0.25:
+        pre.append(["as", x, [], False])
+    rng.shuffle(pre)
+
+    def noise():
+        r = rng.random()
+        v = rng.randrange(nvars)
+        if r < 0.4:
+            return ["ex", [v]]
+        if r < 0.8:
+            return ["as", v, [rng.randrange(nvars)] if rng.random() < 0.6 else [], False]
+        return ["as", x, [], False]
+
+    def compound(d):
+        kind = rng.choice(list(kinds))
+        cond = [rng.choice([v for v in range(nvars) if v != x] or [x])]
+        body = []
+        for _ in range(rng.randint(0, 2)):
+            body.append(noise())
+        if d > 0 and rng.random() < 0.45:
+            body.append(compound(d - 1))
+        else:
+            body.append(["as", x, [], False])
+        for _ in range(rng.randint(0, 1)):
+            body.append(noise())
+        if kind == "if":
+            els = []
+            if rng.random() < 0.5:
+                for _ in range(rng.randint(1, 2)):
+                    els.append(noise())
+                if rng.random() < 0.5:
+                    els.append(compound(d - 1) if d > 0 and rng.random() < 0.4 else ["as", x, [], False])
+            return ["if", cond, body, els]
+        if kind == "wh":
+            return ["wh", cond, body]
+        return ["for", rng.choice([v for v in range(nvars) if v != x] or [x]), cond, body]
+
+    mid = [compound(rng.randint(0, 2))]
+    tail = [["ex", [x]]] if rng.random() < 0.85 else []
+    for _ in range(rng.randint(0, 2)):
+        tail.insert(rng.randint(0, len(tail)), noise())
+    if rng.random() < 0.3:
+        tail.append(compound(1))
+    return pre + mid + tail
+
+
+def enum_blocks(n, depth_left, nvars, kinds, cond_vars, target=2):
     """All blocks of exactly n statements (nested included): atoms over `nvars` variables, compound
     statements of the given kinds with a single-variable condition from cond_vars."""
     if n == 0:
@@ -460,7 +512,7 @@ def enum_blocks(n, depth_left, nvars, kinds, cond_vars):
             atoms.append(["as", v, [r], False])
         atoms.append(["ex", [v]])
     for a in atoms:
-        for rest in enum_blocks(n - 1, depth_left, nvars, kinds, cond_vars):
+        for rest in enum_blocks(n - 1, depth_left, nvars, kinds, cond_vars, target):
             yield [a] + rest
     if depth_left > 0:
         for k in range(1, n):
@@ -470,15 +522,51 @@ def enum_blocks(n, depth_left, nvars, kinds, cond_vars):
                     if kind != "if" and e > 0:
                         continue
                     for cv in cond_vars:
-                        for tb in enum_blocks(t, depth_left - 1, nvars, kinds, cond_vars):
-                            for eb in enum_blocks(e, depth_left - 1, nvars, kinds, cond_vars):
-                                for rest in enum_blocks(n - 1 - k, depth_left, nvars, kinds, cond_vars):
+                        for tb in enum_blocks(t, depth_left - 1, nvars, kinds, cond_vars, target):
+                            for eb in enum_blocks(e, depth_left - 1, nvars, kinds, cond_vars, target):
+                                for rest in enum_blocks(n - 1 - k, depth_left, nvars, kinds, cond_vars, target):
                                     if kind == "if":
                                         yield [["if", [cv], tb, eb]] + rest
                                     elif kind == "wh":
                                         yield [["wh", [cv], tb]] + rest
                                     else:
-                                        yield [["for", 2, [cv], tb]] + rest
+                                        yield [["for", target, [cv], tb]] + rest
+
+
+def first_var(b, among):
+    """First variable of `among` mentioned in the block, in source order (symmetry breaking)."""
+    for s in b:
+        k = s[0]
+        cands = []
+        if k == "as":
+            cands = list(s[2]) + [s[1]]
+        elif k == "ex":
+            cands = list(s[1])
+        elif k == "if":
+            cands = list(s[1])
+        elif k == "wh":
+            cands = list(s[1])
+        elif k == "for":
+            cands = list(s[2]) + [s[1]]
+        for v in cands:
+            if v in among:
+                return v
+        for sub in (s[2:4] if k == "if" else [s[2]] if k == "wh" else [s[3]] if k == "for" else []):
+            v = first_var(sub, among)
+            if v is not None:
+                return v
+    return None
+
+
+def enum_programs(max_n, depth_left, kinds, cond_is_var=False):
+    """Every program of <= max_n statements over x, y (first mentioned one is x: the other half is its
+    mirror image) after the preamble `c = 1`; conditions / iterables read c (or, cond_is_var, also x)."""
+    cond_vars = [3, 0] if cond_is_var else [3]
+    for n in range(1, max_n + 1):
+        for b in enum_blocks(n, depth_left, 2, kinds, cond_vars):
+            if first_var(b, (0, 1)) == 1:
+                continue
+            yield [["as", 3, [], False]] + b
 
 
 def shrink(block, still_fails):
